@@ -156,6 +156,7 @@ pub fn case(o: &mut Out, mempool: bool, flags: u32, max_cost: u64, clvm_cost: u6
     valid_pks(t, &mut pks);
     let pk_s = if pks.is_empty() { "-".to_string() } else { pks.iter().map(hex::encode).collect::<Vec<_>>().join(",") };
     let line = format!("C01 {} {} {} {} {} {}", if mempool { "m" } else { "e" }, flags, max_cost, clvm_cost, pk_s, hex::encode(&bytes));
+    o.begin(&line);
     let r = std::panic::catch_unwind(|| run_parse(mempool, flags, max_cost, clvm_cost, &bytes));
     let res = match r { Ok(Ok(s)) => s, Ok(Err(s)) => s, Err(_) => "PANIC".to_string() };
     o.case(&line, &res);
@@ -636,7 +637,9 @@ fn c06_pair_lim(o: &mut Out, kind: &str, mempool: bool, f1: u32, t1: &T, f2: u32
     let mut pks = vec![]; valid_pks(t1, &mut pks); valid_pks(t2, &mut pks);
     let pk_s = if pks.is_empty() { "-".to_string() } else { pks.iter().map(hex::encode).collect::<Vec<_>>().join(",") };
     let mut line = format!("C06 {} {} {} {} {} {} {}", kind, if mempool { "m" } else { "e" }, f1, f2, pk_s, hex::encode(&b1), hex::encode(&b2));
+    
     if let Some(l) = lim { line.push_str(&format!(" {l}")); }
+    o.begin(&line);
     let limit = lim.unwrap_or(11_000_000_000);
     let r1 = run_parse_owned(mempool, f1, limit, 0, &b1);
     let r2 = run_parse_owned(mempool, f2, limit, 0, &b2);
